@@ -298,7 +298,12 @@ def judge(ctx, dec, wire, klass, wellformed=False, steps=True):
         else:
             ctx.event(f'accepts-unstated:{ref_rej.reason}')
         return
-    diffs = cmp_fn(impl_out, ref_out)
+    try:
+        diffs = cmp_fn(impl_out, ref_out)
+    except Exception as e:   # noqa
+        # reading a field of what the decoder handed out failed: the packet was "accepted" into an object that cannot be read
+        ctx.report(f'accepted-result-unreadable:{dec}:{type(e).__name__}', f'reading the fields of an accepted packet raised {e!r}', w)
+        return
     if diffs is None:
         ctx.event('lp-order-skip')
         return
